@@ -203,6 +203,23 @@ fn materialise(case: &Value, seed: u64) -> (Vec<u8>, Vec<u8>, usize, bool, Optio
         let (first, rest) = source.split_at_mut(b);
         rest[..b].copy_from_slice(first);
         (basis, source, b, true, None)
+    } else if case["level"] == "blocks" {
+        // basis = N distinct random blocks; source = two runs of whole basis blocks (a long merged copy
+        // followed by a copy starting anywhere)
+        let b = case["B"].as_u64().unwrap_or(2048) as usize;
+        let n = case["N"].as_u64().unwrap_or(40) as usize;
+        let basis = junk(seed, 500, b * n);
+        let r = |k: &str| case[k].as_u64().unwrap_or(0) as usize;
+        let mut source = basis[r("s1") * b..(r("s1") + r("l1")).min(n) * b].to_vec();
+        source.extend_from_slice(&basis[r("s2") * b..(r("s2") + r("l2")).min(n) * b]);
+        (basis, source, b, true, None)
+    } else if case["level"] == "deep" {
+        // tens of millions of consecutive non-matching slides, then data that must match
+        let b = case["B"].as_u64().unwrap_or(2048) as usize;
+        let basis: Vec<u8> = junk(seed, 600, 1 << 20).into_iter().map(|x| x & 0x7F).collect();
+        let mut source: Vec<u8> = junk(seed, 601, case["fresh"].as_u64().unwrap_or(0) as usize).into_iter().map(|x| x | 0x80).collect();
+        source.extend_from_slice(&basis);
+        (basis, source, b, true, None)
     } else if case["level"] == "odd" {
         let bs = case["bs"].as_u64().unwrap_or(1) as usize;
         let (basis, source) = odd_case(case["len"].as_u64().unwrap_or(0) as usize, case["content"].as_str().unwrap_or("rand"), case["edit"].as_str().unwrap_or("identity"), seed);
@@ -348,6 +365,34 @@ fn run_lib(which: Which, ctx: &Ctx, stats: &Stats, samples: &mut Vec<Value>, bou
         })
         .collect();
     violations.extend(v);
+    // block programs: a merged copy longer than the 64 KiB copy chunk followed by a copy from every block
+    let mut bjobs: Vec<Value> = Vec::new();
+    let bsz: Vec<usize> = if thorough { vec![512, 2048, 4096] } else { vec![2048] };
+    for &b in &bsz {
+        let n = (65536 / b) + 8;
+        let long = 65536 / b;
+        for l1 in [1usize, long - 1, long, long + 1, n] {
+            for s1 in [0usize, 1] {
+                for s2 in 0..n {
+                    for l2 in [1usize, 2] {
+                        bjobs.push(json!({"level":"blocks","B":b,"N":n,"s1":s1,"l1":l1,"s2":s2,"l2":l2}));
+                    }
+                }
+            }
+        }
+    }
+    // one deep path: > 2^25 consecutive non-matching slides before the matching data
+    bjobs.push(json!({"level":"deep","B":2048,"fresh": if thorough { (1u64 << 26) + (1 << 22) } else { (1u64 << 25) + (1 << 22) }}));
+    let v: Vec<Violation> = bjobs
+        .par_iter()
+        .filter_map(|case| {
+            let (basis, source, b, legal, _) = materialise(case, seed);
+            eval_case(which, &basis, &source, b, legal, None, stats).map(|(k, m)| Violation::new(k, m, case.clone()))
+        })
+        .collect();
+    violations.extend(v);
+    bounds.insert("block_programs".into(), json!({"block_sizes":bsz,"cases":bjobs.len(),"shape":"run(s1,l1) ++ run(s2,l2) with l1 around 64 KiB / B, every s2; plus one deep-slide case"}));
+    samples.push(json!({"level":"blocks","B":2048,"N":40,"s1":0,"l1":33,"s2":1,"l2":1}));
     bounds.insert("odd_block_sizes".into(), json!({"block_sizes":odd_bs,"basis_lengths":odd_len,"contents":["rand","rep"],"edits":4}));
     samples.push(json!({"level":"odd","bs":1000,"len":65537,"content":"rand","edit":"insert_mid"}));
     violations
